@@ -107,6 +107,15 @@ def create_app(config: JsonObject | None = None,
         instance_path=folders.instance_path,
         template_folder=str(folders.template_folder),
         static_folder=str(folders.static_folder))
+
+    def select_autoescape(filename: str | None) -> bool:
+        # DASH manifests are XML documents too: values written into
+        # them (titles, URLs, CGI parameters) must be escaped
+        if filename is not None and filename.endswith('.mpd'):
+            return True
+        return Flask.select_jinja_autoescape(app, filename)
+
+    app.select_jinja_autoescape = select_autoescape
     add_routes(app)
     dash_settings = {
         'CSRF_SECRET': secrets.token_urlsafe(16),
